@@ -465,7 +465,14 @@ impl World {
     }
   }
 
-  fn envelope_script(&self, m: &Model, env: &EnvSpec, total_out_hint: u64, script: &mut Vec<u8>) {
+  fn envelope_script(
+    &self,
+    m: &Model,
+    env: &EnvSpec,
+    total_out_hint: u64,
+    input_starts: &[u64],
+    script: &mut Vec<u8>,
+  ) {
     // OP_FALSE [OP_FALSE] OP_IF "ord" fields… [OP_0 body…] OP_ENDIF
     script.push(0x00);
     if env.stutter {
@@ -511,6 +518,11 @@ impl World {
     }
     if let Some(p) = &env.pointer {
       field(script, 2, p);
+    } else if let Some(k) = env.pointer_input
+      && !input_starts.is_empty()
+    {
+      let pointer = input_starts[k as usize % input_starts.len()];
+      field(script, 2, &ord::Inscription::pointer_value(pointer));
     } else if let Some(permille) = env.pointer_permille {
       let pointer = (u128::from(total_out_hint) * u128::from(permille) / 1000) as u64;
       field(script, 2, &ord::Inscription::pointer_value(pointer));
@@ -546,6 +558,7 @@ impl World {
     m: &Model,
     w: &WitnessSpec,
     total_out_hint: u64,
+    input_starts: &[u64],
     auto_commit: Option<&[u8]>,
   ) -> Witness {
     let control = {
@@ -564,7 +577,7 @@ impl World {
       WitnessSpec::Envelopes(envs) => {
         let mut script = Vec::new();
         for e in envs {
-          self.envelope_script(m, e, total_out_hint, &mut script);
+          self.envelope_script(m, e, total_out_hint, input_starts, &mut script);
         }
         from_script(script)
       }
@@ -590,7 +603,7 @@ impl World {
         push_data(&mut script, c);
         script.push(0x75);
         for e in envs {
-          self.envelope_script(m, e, total_out_hint, &mut script);
+          self.envelope_script(m, e, total_out_hint, input_starts, &mut script);
         }
         script.push(0x51);
         from_script(script)
@@ -846,6 +859,12 @@ impl World {
 
     let total_out: u64 = output.iter().map(|o| o.value.to_sat()).sum();
 
+    let mut input_starts = Vec::new();
+    let mut acc = 0u64;
+    for o in &taken {
+      input_starts.push(acc);
+      acc += m.utxos[o].value;
+    }
     let input = taken
       .iter()
       .zip(&spec.inputs)
@@ -853,7 +872,7 @@ impl World {
         previous_output: *o,
         script_sig: ScriptBuf::new(),
         sequence: Sequence::ENABLE_RBF_NO_LOCKTIME,
-        witness: self.witness_for(m, &i.witness, total_out, auto_commit.as_deref()),
+        witness: self.witness_for(m, &i.witness, total_out, &input_starts, auto_commit.as_deref()),
       })
       .collect();
 
